@@ -114,23 +114,114 @@ def plane_table(ctx):
     ctx.ob('PLANE-TABLE', loc, 'the Cartesian normal is s·(a·cell) × (b·cell) in the (primitive) cell the indices refer to', got is not None and equal(np.asarray(got, dtype=object), sg * np.cross(av.dot(V), bv.dot(V)), deep=False), node=pn[0], key='normal')
 
 
+def _search_eval(ctx, fn, V, normal, maxindex, order=None):
+    """interpret the two candidate-search loops on a concrete cell; the candidate generator is replaced by an explicit list"""
+    start = [k for k, s in enumerate(fn.body) if isinstance(s, ast.Assign) and norm(s.targets[0]) == 'a_mag']
+    end = [k for k, s in enumerate(fn.body) if isinstance(s, ast.If) and "cutboxvector == 'c'" in norm(s.test)]
+    if len(start) != 1 or len(end) != 1:
+        raise AnalysisError('free_surface_basis: the search section is not recognisable')
+    stmts = [s for s in fn.body[start[0]:end[0]] if not isinstance(s, ast.FunctionDef)]
+    cands = [np.array([i, j, k], dtype=object) for k in range(-maxindex, maxindex + 1) for j in range(-maxindex, maxindex + 1) for i in range(-maxindex, maxindex + 1) if (i, j, k) != (0, 0, 0)]
+    if order in ('reversed', 'negated-reversed'):
+        cands = cands[::-1]
+    if order in ('negated', 'negated-reversed'):
+        cands = [-c for c in cands]
+    if order == 'rotated':
+        cands = cands[len(cands) // 3:] + cands[:len(cands) // 3]
+    cands = [arr([sp.Integer(int(x)) for x in c]) for c in cands]
+
+    def angle(a, b):
+        a, b = np.asarray(a, dtype=object), np.asarray(b, dtype=object)
+        c = sp.nsimplify(a.dot(b)) / sp.sqrt(sp.nsimplify(a.dot(a)) * sp.nsimplify(b.dot(b)))
+        c = sp.simplify(c)
+        if c == 1:
+            return sp.Integer(0)
+        if c == -1:
+            return sp.Integer(180)
+        return sp.acos(c) * 180 / sp.pi
+    ev = SymEval(module_aliases(ctx.mod(FSB)))
+    ev.globals = {'gen_vector': lambda n: list(cands), 'vector_crystal_to_cartesian': lambda u, box: np.asarray(u, dtype=object).dot(V), 'vect_angle': angle}
+
+    def isclose(a, b, **k):
+        return bool(sp.simplify(sp.sympify(a) - b) == 0)
+
+    def cmp_decide(text, v, p):
+        # comparisons between exact algebraic numbers: decided by 40-digit evaluation
+        try:
+            if isinstance(v, sp.core.relational.Relational):
+                d = sp.N(v.lhs - v.rhs, 40)
+                if abs(d) < sp.Float('1e-30'):
+                    d = 0
+                return {sp.StrictLessThan: d < 0, sp.StrictGreaterThan: d > 0, sp.LessThan: d <= 0, sp.GreaterThan: d >= 0}.get(type(v))
+        except Exception:
+            return None
+        return None
+    ev.decide = cmp_decide
+    ev.np_override = {'numpy.isclose': isclose, 'numpy.linalg.norm': lambda v: sp.sqrt(sp.nsimplify(np.asarray(v, dtype=object).dot(np.asarray(v, dtype=object)))),
+                      'numpy.gcd.reduce': lambda v: sp.Integer(int(np.gcd.reduce([int(x) for x in v])))}
+    q = ev.block(stmts, [Path({'box': 'BOX', 'planenormal': normal, 'maxindex': maxindex})])
+    live = [p for p in q if p.done is None]
+    if len(live) != 1:
+        return None
+    e = live[0].env
+    return e.get('a_uvw'), e.get('b_uvw'), e.get('c_uvw'), cands
+
+
 def search(ctx):
     fn = ctx.fn(FSB, 'free_surface_basis')
     loc = FSB + '::free_surface_basis'
-    loops = [s for s in fn.body if isinstance(s, ast.For) and 'gen_vector' in norm(s.iter)]
-    ctx.need(len(loops) == 2, 'free_surface_basis: expected two candidate-search loops, found %d' % len(loops))
-    l1, l2 = loops
-    t1 = norm(l1).replace(' ', '')
-    ok = 'ifnp.isclose(np.dot(cart,planenormal),0.0):' in t1 and 'ifmag<a_mag:' in t1 and 'elifangle<c_angle:' in t1 and 'angle=vect_angle(cart,planenormal)' in t1
-    ctx.ob('SEARCH', loc, 'first loop: candidates with cart·normal = 0 compete for the shortest in-plane vector; the others compete for the smallest angle to the normal', ok, node=l1)
-    init = {norm(s.targets[0]): norm(s.value) for s in fn.body if isinstance(s, ast.Assign) and isinstance(s.targets[0], ast.Name)}
-    ctx.ob('SEARCH', loc, 'the angle search starts at 90 degrees, so the out-of-plane vector has a positive component along the normal', init.get('c_angle') == '90', str(init.get('c_angle')), node=fn, key='c_angle')
-    red = [s for s in fn.body if isinstance(s, ast.Assign) and norm(s.targets[0]) == 'c_uvw' and 'gcd' in norm(s.value)]
-    ctx.ob('SEARCH', loc, 'the out-of-plane vector is divided by the gcd of its indices', len(red) == 1 and norm(red[0].value).replace(' ', '') == 'c_uvw/np.gcd.reduce(np.asarray(c_uvw,dtype=int))', node=fn, key='gcd')
-    t2 = norm(l2).replace(' ', '')
-    ok = 'np.isclose(np.dot(cart,planenormal),0.0)' in t2 and 'notnp.isclose(angle,0.0)' in t2 and 'notnp.isclose(angle,180.0)' in t2 and 'ifnp.dot(np.cross(a_cart,cart),planenormal)>0:' in t2 \
-        and 'angle=vect_angle(a_cart,cart)' in t2
-    ctx.ob('SEARCH', loc, 'second loop: in-plane, not (anti)parallel to the first vector, and (a × b)·normal > 0 so that (a, b, normal) is right-handed', ok, node=l2)
+    R = sp.Rational
+    cells = [('cubic cell, (111)', np.array(sp.eye(3).tolist(), dtype=object), arr([1, 1, 1]), 1, None), ('cubic cell, (111), candidates in reverse order', np.array(sp.eye(3).tolist(), dtype=object), arr([1, 1, 1]), 1, 'reversed'),
+             ('cubic cell, (111), candidates negated', np.array(sp.eye(3).tolist(), dtype=object), arr([1, 1, 1]), 1, 'negated'),
+             ('cubic cell, (111), candidates negated and reversed', np.array(sp.eye(3).tolist(), dtype=object), arr([1, 1, 1]), 1, 'negated-reversed'),
+             ('cubic cell, (111), candidates rotated', np.array(sp.eye(3).tolist(), dtype=object), arr([1, 1, 1]), 1, 'rotated'),
+             ('cubic cell, (001), candidates negated', np.array(sp.eye(3).tolist(), dtype=object), arr([0, 0, 1]), 1, 'negated'),
+             ('orthorhombic 1x2x3 cell, (110)', np.array([[1, 0, 0], [0, 2, 0], [0, 0, 3]], dtype=object), arr([1, R(1, 2), 0]), 1, None),
+             ('tilted cell, (001)', np.array([[2, 0, 0], [1, 2, 0], [R(1, 2), R(1, 2), 3]], dtype=object), arr([0, 0, 1]), 1, None),
+             ('cubic cell, (-1 2 0)', np.array(sp.eye(3).tolist(), dtype=object), arr([-1, 2, 0]), 2, None)]
+    n = 0
+    for tag, V, normal, mi, order in cells:
+        n += 1
+        try:
+            res = _search_eval(ctx, fn, V, normal, mi, order)
+        except WouldRaise as e:
+            ctx.ob('SEARCH', loc, '%s: the search runs to completion' % tag, False, str(e), node=fn, key=tag)
+            continue
+        except Opaque as e:
+            raise AnalysisError('free_surface_basis search (%s): %s' % (tag, e))
+        if res is None or any(v is None for v in res[:3]):
+            ctx.ob('SEARCH', loc, '%s: three lattice vectors are found' % tag, False, node=fn, key=tag)
+            continue
+        a, b, c, cands = res
+        cart = lambda u: np.asarray(u, dtype=object).dot(V)
+        dotn = lambda u: sp.simplify(cart(u).dot(normal))
+        length2 = lambda u: sp.nsimplify(cart(u).dot(cart(u)))
+        inplane = [u for u in cands if dotn(u) == 0]
+        bad = []
+        if dotn(a) != 0 or dotn(b) != 0:
+            bad.append('in-plane vectors are not in the plane: a·n = %s, b·n = %s' % (dotn(a), dotn(b)))
+        if not (dotn(c) > 0):
+            bad.append('the out-of-plane vector does not point along the normal: c·n = %s' % dotn(c))
+        tri = sp.simplify(np.cross(cart(a), cart(b)).dot(normal))
+        if not (tri > 0):
+            bad.append('(a × b)·n = %s: not right-handed' % tri)
+        if inplane and length2(a) != min(length2(u) for u in inplane):
+            bad.append('a is not a shortest in-plane lattice vector')
+        adm = [u for u in inplane if sp.simplify(np.cross(cart(a), cart(u)).dot(normal)) > 0]
+        if adm and length2(b) != min(length2(u) for u in adm):
+            bad.append('b is not a shortest admissible in-plane vector')
+        cosang = lambda u: dotn(u) / sp.sqrt(length2(u))
+        outp = [u for u in cands if dotn(u) != 0]
+        if outp and sp.N(cosang(c) - max(sp.N(cosang(u), 30) for u in outp), 30) < -sp.Float('1e-20'):
+            bad.append('c is not the lattice vector closest to the normal')
+        g = int(np.gcd.reduce([int(x) for x in c]))
+        if g != 1:
+            bad.append('c is not reduced by its gcd (%s)' % (list(c),))
+        if any(sp.nsimplify(x) != int(sp.nsimplify(x)) for u in (a, b, c) for x in u):
+            bad.append('non-integer indices')
+        ctx.ob('SEARCH', loc, '%s: the vectors found are integer; a and b lie in the plane with a the shortest and b the shortest that makes (a, b, normal) right-handed; c is the reduced lattice vector closest to +normal' % tag,
+               not bad, '; '.join(bad)[:300] + ' [a=%s b=%s c=%s]' % (list(a), list(b), list(c)), node=fn, key=tag)
+    ctx.floor('SEARCH', n, 5)
     asserts = [norm(s.test) for s in fn.body if isinstance(s, ast.Assert)]
     ctx.ob('SEARCH', loc, 'a failed search is refused (all three vectors must have been found)', all(x in asserts for x in ('a_uvw is not None', 'c_uvw is not None', 'b_uvw is not None')), str(asserts), node=fn, key='asserts')
     # cutboxvector arms
